@@ -6,10 +6,11 @@
   order on well names, sets of any length, every non-decreasing sequence of evaluation times with
   any condition outcomes, any limits.
 
-  Not proved (reported): `parse (render c) = c` for condition trees — the parser is modelled and
-  compared tree-by-tree with the real one, the printer/inverse theorem was not done.
+  Second round: `act_parse_render` (`parse (render c) = c` for every condition tree, with the
+  model's own fuel), parser totality and fuel monotonicity.
 -/
 import OpmVerif.Proofs.Action
+import OpmVerif.Proofs.ActionParse
 
 namespace OpmVerif.Props.C18
 open OpmVerif.Act
@@ -78,6 +79,38 @@ theorem run_limits (L : Limits) (evs : List (Int × Bool)) (s : RunState)
         L.minWait ≤ ((drive L s evs)[i+1]'h) - ((drive L s evs)[i]'(by omega))) :=
   drive_invariant L evs s hmono hlast
 
+/-- `act_parse_render`: print any condition tree `c` of the documented grammar — comparisons
+`lhs op rhs` with argument lists, AND binding tighter than OR, one n-ary node per AND chain, OR
+chains nesting to the right, parentheses exactly where these ranks demand them — and the model of
+`Action::Parser::parse`, run with its OWN fuel `4 * length + 4`, returns exactly `c` and consumes
+every token. -/
+theorem act_parse_render (c : Cond) (hw : WFC c) :
+    parseOr (4 * (render c).length + 4) (render c) = .ok c [] ∧
+    (match parse (render c) with | .tree c' => c' = c | _ => False) :=
+  OpmVerif.Act.parse_render c hw
+
+/-- The same in any context: the rank-`lvl` parser on the rank-`lvl` print-out of `c` followed by
+further tokens returns `c` and leaves exactly these tokens, if they do not start with an operator of
+rank `lvl` or tighter (`okRest`), from some fuel on. -/
+theorem act_parse_render_in_context (c : Cond) (hw : WFC c) (lvl : Nat) (rest : List Tok) (hl : lvl ≤ 2)
+    (ho : okRest lvl rest) :
+    ∃ f0, ∀ f, f0 ≤ f → parseAt lvl f (renderAt lvl c ++ rest) = .ok c rest :=
+  main_inv.1 c hw lvl rest hl ho
+
+/-- Totality of the condition parser: on EVERY token list, with the fuel `parse` uses, `parse_or`
+answers with an error or with a tree and a remainder no longer than the input; the out-of-fuel
+outcome is impossible. -/
+theorem act_parser_total (ts : List Tok) :
+    (parseOr (4 * ts.length + 4) ts = .err ∨
+      ∃ c rest, parseOr (4 * ts.length + 4) ts = .ok c rest ∧ rest.length ≤ ts.length) ∧
+    (match parse ts with | .fuel => true | _ => false) = false :=
+  ⟨parseOr_total ts, parse_ne_fuel ts⟩
+
+/-- Fuel monotonicity: more fuel never changes an answer of `parse_or`. -/
+theorem act_parser_fuel_monotone {n m : Nat} {ts : List Tok} {r : PRes} (h : parseOr n ts = r)
+    (hr : r ≠ .fuel) (hnm : n ≤ m) : parseOr m ts = r :=
+  parseOr_mono h hr hnm
+
 /-! ### Non-vacuity -/
 
 def natLt (a b : Nat) : Bool := decide (a < b)
@@ -104,5 +137,20 @@ example :
      | .tree (.or a (.and b c [])) => true
      | _ => false) = true := by
   decide +kernel
+
+/-- `(A OR B) AND C AND (D OR E OR F)` -/
+def sampleCond : Cond :=
+  let cmp (k : String) : Cond := .cmp .gt (.expr k 1 ["P1"]) (.num 0x3ff0000000000000)
+  .and (.or (cmp "WOPR") (cmp "WWCT")) (.cmp .le (.expr "FOPR" 0 []) (.expr "FWPR" 0 []))
+    [.or (cmp "WGOR") (.or (cmp "WBHP") (.and (cmp "WTHP") (cmp "WWIR") []))]
+
+example : (render sampleCond).length = 37 := by decide +kernel
+
+example : WFC sampleCond := by
+  have h : stripQuotes "P1" = "P1" := by decide +kernel
+  simp [sampleCond, WFC, WFC.WFCs, plainArgs, h]
+
+/-- the round trip on the sample, computed by the kernel -/
+example : parseOr (4 * 37 + 4) (render sampleCond) = .ok sampleCond [] := by rfl
 
 end OpmVerif.Props.C18
